@@ -512,6 +512,52 @@ rebuild2!(c01_k2_rebuild2_20, 2, 0);
 rebuild2!(c01_k2_rebuild2_21, 2, 1);
 rebuild2!(c01_k2_rebuild2_22, 2, 2);
 
+/// the hint / pruning half of the real `rebuild_interest` with NO callsite registered (the callsite walk is then
+/// empty): 2 registrars with symbolic hints, the second one live or dropped — global max = max over live hints
+/// (missing hint = TRACE), OFF if none; dead registrars pruned
+#[kani::proof]
+#[kani::unwind(4)]
+#[kani::stub(std::rt::thread_cleanup, noop)]
+#[kani::stub(core::fmt::write, fmt_write_stub)]
+fn c01_k2_rebuild_hints2() {
+    let (ha, hb): (u8, u8) = (kani::any(), kani::any());
+    kani::assume(ha <= 6 && hb <= 6);
+    A.hint.store(ha, Ordering::Relaxed);
+    B.hint.store(hb, Ordering::Relaxed);
+    v::set_max(filter(any_filter_rank()));
+    let (da, db) = (v::dispatch_unregistered(&A), v::dispatch_unregistered(&B));
+    let mut rs = v::VRegistrars::new();
+    rs.push(&da);
+    rs.push(&db);
+    v::rebuild_interest(&mut rs);
+    assert!(LevelFilter::current() == filter(core::cmp::max(hint_rank(ha), hint_rank(hb))));
+    assert!(rs.len() == 2);
+    kani::cover!(ha == 6 && hb == 0);
+    kani::cover!(ha == 1 && hb == 3);
+}
+
+/// same with a dropped collector's registrar in front of / behind a live one
+#[kani::proof]
+#[kani::unwind(4)]
+#[kani::stub(std::rt::thread_cleanup, noop)]
+#[kani::stub(core::fmt::write, fmt_write_stub)]
+fn c01_k2_rebuild_hints_dead_live() {
+    let ha: u8 = kani::any();
+    kani::assume(ha <= 6);
+    A.hint.store(ha, Ordering::Relaxed);
+    v::set_max(filter(any_filter_rank()));
+    let da = v::dispatch_unregistered(&A);
+    let mut rs = v::VRegistrars::new();
+    let dead_first: bool = kani::any();
+    if dead_first { dead_registrar(&mut rs); rs.push(&da); } else { rs.push(&da); dead_registrar(&mut rs); }
+    assert!(rs.len() == 2);
+    v::rebuild_interest(&mut rs);
+    assert!(LevelFilter::current() == filter(hint_rank(ha)));
+    assert!(rs.len() == 1);
+    kani::cover!(dead_first && ha == 2);
+    kani::cover!(!dead_first && ha == 6);
+}
+
 /// `Interest::and` truth table
 #[kani::proof]
 fn c01_k2_interest_and() {
